@@ -5,7 +5,8 @@
 Writes /verif/seeded/Cxx-<v>/{patch.diff,demo_test.go,README.md,meta.json}."""
 import sys, os, re, json, subprocess, shutil, tempfile, glob
 pid, var = sys.argv[1], sys.argv[2]
-src = f'/tmp/seed/{pid}/_seed/{var}'
+base = os.environ.get('SEED_BASE', '/tmp/seed')
+src = f'{base}/{pid}/_seed/{var}'
 ENV = dict(os.environ, GOFLAGS='-mod=mod', GOPROXY='off', GOSUMDB='off', GOTOOLCHAIN='local', GOWORK='off')
 def run(cmd, cwd, timeout=600):
     r = subprocess.run(cmd, cwd=cwd, env=ENV, capture_output=True, text=True, timeout=timeout)
@@ -49,7 +50,7 @@ finally:
     shutil.rmtree(tmp, ignore_errors=True)
 ok = all(res.get(k) for k in ('applies', 'builds', 'suite_passes_with_change', 'demo_fails_with_change', 'demo_passes_without_change'))
 res['confirmed'] = ok
-d = f'/verif/seeded/{pid}-{var}'
+d = f'/verif/seeded/{pid}-{os.environ.get("SEED_TAG", "")}{var}'
 if ok:
     os.makedirs(d, exist_ok=True)
     for f in ('patch.diff', 'demo_test.go', 'README.md'):
